@@ -698,6 +698,7 @@ def r3(ctx):
                 continue
             want = {(c, STRUCT_SIZE.sub("bytes:STRUCT", t)) for c, t in size_terms(next(iter(ws)))}
             got = {(c, STRUCT_SIZE.sub("bytes:STRUCT", t)) for c, t in _calc_terms(repo, ci, cs)}
+            got, want = ({x for x in g_ if x[1] != "bytes:0"} for g_ in (got, want))     # nothing on the wire
             ctx.ob("C08.R3", f"{label}: calc_size equals the byte total of the deserialize trace", want == got,
                    cs.where, f"calc_size terms {sorted(got)} vs reader terms {sorted(want)}")
     ctx.floor("C08.R3", "classes reporting a fixed size", checked, 7)
@@ -1114,6 +1115,179 @@ def r9(ctx):
     ctx.floor("C08.R9", "expressions gated on both sides", n, 4)
 
 
+# ----------------------------------------------------------------------------- R10 / R11 / R12: declarations
+
+def _spec_classes(repo):
+    base = repo.cls("SerializableBase", SER)
+    for name in sorted(repo.classes):
+        for ci in repo.classes[name]:
+            if ci.module.rel in PAIR_MODULES and any(m == base for m in repo.mro(ci)):
+                yield ci
+
+
+def _own_class_attr(ci: ClassInfo, name: str):
+    for st in ci.node.body:
+        if isinstance(st, ast.Assign) and any(isinstance(t, ast.Name) and t.id == name for t in st.targets):
+            return st.value
+        if isinstance(st, ast.AnnAssign) and isinstance(st.target, ast.Name) and st.target.id == name:
+            return st.value
+    return None
+
+
+# classes for which a missing key is part of a Template's value domain (presence is carried on the wire /
+# by a sibling field, so Template(skip_missing) omits the member and must be able to write it back)
+R10_MUST_BE_OPTIONAL = {
+    "OptionalPrefixed": "presence is carried by its own U8 prefix",
+    "OptionalFlagged": "presence is carried by a sibling flag field",
+}
+
+
+def r10(ctx):
+    repo = ctx.repo
+    ctx.rule("C08.R10", "the OPTIONAL marker agrees with its consumer Template: presence-coded members are marked "
+                        "(an omitted key is written as 'absent' and dropped again on read), and every marked class "
+                        "accepts the None that Template.serialize hands it for an omitted key")
+    tser = repo.fn("Template.serialize", SER)
+    tdes = repo.fn("Template.deserialize", SER)
+    for f, what in ((tser, "fetches OPTIONAL members with .get()"), (tdes, "drops None OPTIONAL members under skip_missing")):
+        uses = [n for n in walk(f.node) if isinstance(n, ast.Attribute) and n.attr == "OPTIONAL"]
+        ctx.ob("C08.R10", f"{f.qual} consults <field spec>.OPTIONAL", bool(uses), f.where, f"Template no longer {what}")
+    n = 0
+    for ci in _spec_classes(repo):
+        v = None
+        for c in repo.mro(ci):
+            v = _own_class_attr(c, "OPTIONAL")
+            if v is not None:
+                break
+        marked = isinstance(v, ast.Constant) and bool(v.value)
+        if ci.name in R10_MUST_BE_OPTIONAL:
+            n += 1
+            ctx.ob("C08.R10", f"{_label(ci)} is marked OPTIONAL", marked, ctx.w(ci.module, ci.node),
+                   f"{R10_MUST_BE_OPTIONAL[ci.name]}: Template(skip_missing) returns values without this key, which "
+                   f"Template.serialize can then no longer write (KeyError) - and absent members come back as None")
+        if marked and "serialize" in {m for c in repo.mro(ci) for m in c.methods}:
+            s_ = repo.lookup_method(ci, "serialize")
+            if s_ is None or is_abstract(s_):
+                continue
+            vp = (_params(s_) or [None])[0]
+            none_aware = any(is_none_test(c) and is_none_test(c)[0] == vp for t_ in walk(s_.node)
+                             if isinstance(t_, (ast.If, ast.IfExp, ast.Assert)) for c in ast.walk(t_.test)
+                             if isinstance(c, ast.Compare)) or \
+                any(isinstance(c, ast.Compare) and is_none_test(c) and is_none_test(c)[0] == vp for c in ast.walk(s_.node))
+            # ... or the value is only touched under a gate that does not involve it (flag-gated members)
+            t = Tracer(repo, ci, "main")
+            ungated: List[bool] = []
+            t.event_hooks.append(lambda tok, node, st, fr, sid, ungated=ungated:
+                                 ungated.append(not st.pc) if sid == "main" and tok[0] in ("E", "B") else None)
+            t.run(s_, _stream_param(s_, "writer", 1), value_param=vp)
+            gated = bool(ungated) and not any(ungated)
+            ctx.ob("C08.R10", f"{_label(ci)}.serialize (OPTIONAL) copes with the None of an omitted key",
+                   none_aware or gated, s_.where, "Template.serialize passes None for an omitted OPTIONAL member")
+    ctx.floor("C08.R10", "presence-coded classes", n, len(R10_MUST_BE_OPTIONAL))
+
+
+def r11(ctx):
+    repo = ctx.repo
+    ctx.rule("C08.R11", "constructor gates on spec-typed arguments are no narrower than what the class needs of the "
+                        "spec: an isinstance test that decides whether an argument becomes a wire spec accepts every "
+                        "serializable (a narrower class silently diverts valid specs into another wire mode)")
+    base = repo.cls("SerializableBase", SER)
+    base_members = {m for c in repo.mro(base) for m in c.methods} | {"OPTIONAL"}
+    n = 0
+    for ci in _spec_classes(repo):
+        init = ci.methods.get("__init__")
+        if init is None:
+            continue
+        prm = set(_params(init))
+        # attributes of self used in spec position anywhere in the class
+        spec_attrs: Set[str] = set()
+        hard: Dict[str, Set[str]] = {}
+        for m in ci.methods.values():
+            for c in [x for x in walk(m.node, into_defs=True) if isinstance(x, ast.Call)]:
+                f_ = c.func
+                if isinstance(f_, ast.Attribute) and f_.attr in ("write", "read") and c.args:
+                    p_ = ap(c.args[0]) or ""
+                    if p_.startswith("self.") and p_.count(".") == 1:
+                        spec_attrs.add(p_.split(".")[1])
+                if isinstance(f_, ast.Attribute) and f_.attr in ("serialize", "deserialize"):
+                    p_ = ap(f_.value) or ""
+                    if p_.startswith("self.") and p_.count(".") == 1:
+                        spec_attrs.add(p_.split(".")[1])
+            for a in [x for x in walk(m.node, into_defs=True) if isinstance(x, ast.Attribute)]:
+                p_ = ap(a.value) or ""
+                if p_.startswith("self.") and p_.count(".") == 1 and a.attr not in base_members:
+                    hard.setdefault(p_.split(".")[1], set()).add(a.attr)
+        for node in walk(init.node):
+            if not isinstance(node, ast.If):
+                continue
+            for e in [x for x in ast.walk(node.test) if isinstance(x, ast.Call)]:
+                if not (isinstance(e.func, ast.Name) and e.func.id == "isinstance" and len(e.args) == 2
+                        and isinstance(e.args[0], ast.Name) and e.args[0].id in prm):
+                    continue
+                stored = [st.path.split(".")[1] for st in stores(ast.Module(body=node.body, type_ignores=[]), into_defs=False)
+                          if st.kind == "assign" and st.path.startswith("self.") and st.path.count(".") == 1
+                          and isinstance(st.value, ast.Name) and st.value.id == e.args[0].id]
+                for attr in stored:
+                    if attr not in spec_attrs:
+                        continue
+                    classes = e.args[1].elts if isinstance(e.args[1], ast.Tuple) else [e.args[1]]
+                    resolved = [repo.resolve_class(ap(c) or "", ci.module) for c in classes]
+                    n += 1
+                    wide = any(r is not None and r == base for r in resolved)
+                    needs = hard.get(attr, set())
+                    justified = bool(needs) and all(
+                        r is not None and needs <= {m for c in repo.mro(r) for m in c.methods} | _self_attrs(repo, r)
+                        for r in resolved)
+                    ctx.ob("C08.R11", f"{_label(ci)}.__init__: isinstance gate for spec attribute {attr} accepts every "
+                                      f"serializable", wide or justified, ctx.w(init, e),
+                           f"gate {norm(e)} but {ci.name} only uses self.{attr} as a spec"
+                           f"{' and ' + str(sorted(needs)) if needs else ''}: other serializables fall through to "
+                           f"another mode (e.g. a prefixed collection silently becomes greedy)")
+    ctx.floor("C08.R11", "isinstance gates on spec arguments", n, 1)
+
+
+def _self_attrs(repo, ci: ClassInfo) -> Set[str]:
+    out = set()
+    for c in repo.mro(ci):
+        for m in c.methods.values():
+            for st in stores(m.node, into_defs=False):
+                if st.path.startswith("self.") and st.path.count(".") == 1:
+                    out.add(st.path.split(".")[1])
+                    out.add(st.path.split(".")[1].lstrip("_"))      # exposed through a property of the same name
+    return out
+
+
+# what combinators ask of a child spec besides serialize/deserialize (Template/Tuple/Adapter/TupleCoord/FixedPoint
+# call calc_size, dataclass_field / TypedBytesBase call default_value, readers call need_pod)
+R12_CHILD_API = ("calc_size", "default_value", "need_pod")
+
+
+def _class_callable(fi: FuncInfo) -> bool:
+    return any(isinstance(d, ast.Name) and d.id in ("classmethod", "staticmethod") for d in fi.node.decorator_list)
+
+
+def r12(ctx):
+    repo = ctx.repo
+    ctx.rule("C08.R12", "bare-class specs answer the whole child API: a spec class whose serialize and deserialize "
+                        "are class-level (it is used as `se.X`, not `se.X()`) has class-level calc_size / "
+                        "default_value / need_pod too (a size query on a composite containing it must not fail)")
+    n = 0
+    for ci in _spec_classes(repo):
+        s_, d_ = repo.lookup_method(ci, "serialize"), repo.lookup_method(ci, "deserialize")
+        if s_ is None or d_ is None or is_abstract(s_) or is_abstract(d_):
+            continue
+        if not (_class_callable(s_) and _class_callable(d_)):
+            continue
+        n += 1
+        for api in R12_CHILD_API:
+            m = repo.lookup_method(ci, api)
+            ctx.ob("C08.R12", f"{_label(ci)}.{api} is callable on the class object", m is not None and _class_callable(m),
+                   m.where if m is not None else ctx.w(ci.module, ci.node),
+                   f"{ci.name} is used as a bare class; {api}() resolved to "
+                   f"{m.qual if m is not None else 'nothing'} needs an instance: TypeError from every composite that asks")
+    ctx.floor("C08.R12", "bare-class specs", n, 5)
+
+
 def run(ctx):
     r1(ctx)
     r2(ctx)
@@ -1125,6 +1299,9 @@ def run(ctx):
     r7(ctx)
     r8(ctx)
     r9(ctx)
+    r10(ctx)
+    r11(ctx)
+    r12(ctx)
     ctx.assume("read(write(v)) == v over generated spec trees and values is not decided statically; branch "
                "conditions of the two directions are not compared (a flipped test is a value-level fault)")
     ctx.assume("comprehension / generator events are placed where the comprehension is written; closures returned "
